@@ -49,9 +49,21 @@ _TYPE_BASES = {
 }
 
 
+_MI_SECOND = {"Conj": "ufl.algebra.Conj", "Real": "ufl.algebra.Real", "Imag": "ufl.algebra.Imag"}
+
+
 def _mk_new_type(node, name, base_spec, abstract):
     """Define and register a new Expr subclass named ``name``."""
-    if isinstance(base_spec, list):  # ["$", slot] -> earlier new type
+    second = None
+    if isinstance(base_spec, list) and base_spec and base_spec[0] == "mi":
+        # ["mi", ["$", slot], "Conj"]: two UFL bases, the second a concrete old operator
+        # (the pattern of UFL's own BaseFormOperatorDerivative(BaseFormDerivative, BaseFormOperator))
+        base = node.dec(base_spec[1])
+        kind = base._sim_kind
+        if kind != "op":
+            raise Skip("mi-first-base-kind")
+        second = ops.resolve(_MI_SECOND[base_spec[2]])
+    elif isinstance(base_spec, list):  # ["$", slot] -> earlier new type
         base = node.dec(base_spec)
         kind = base._sim_kind
     else:
@@ -92,7 +104,9 @@ def _mk_new_type(node, name, base_spec, abstract):
             # MathFunction reconstruct/repr use its own conventions
             body["_ufl_expr_reconstruct_"] = lambda self, *o: type(self)(*o)
             body["__repr__"] = lambda self: f"{name}({self.ufl_operands[0]!r})"
-        cls = type(name, (base,), body)
+        if second is not None:
+            body["__init__"] = lambda self, a: ufl.core.operator.Operator.__init__(self, (a,))
+        cls = type(name, (base,) if second is None else (base, second), body)
         cls = ufl_type(is_abstract=abstract, num_ops=1)(cls)
     elif kind == "geo":
         body = {"__slots__": (), "name": name.lower(), "_sim_kind": kind}
@@ -179,6 +193,8 @@ def xop_defalg(node, op):
     name.  style: 'post' = (self, o, *ops), 'pre' = (self, o) (cutoff for MultiFunction,
     pre-handler for Transformer)."""
     _, out, base, name, handlers, parent = op
+    if base == "DT":
+        return _defalg_dt(node, out, name, handlers)
     if parent is not None:
         bcls = node.dec(parent)
     else:
@@ -202,6 +218,71 @@ def xop_defalg(node, op):
     body["_sim_handlers"] = decl
     cls = type(name, (bcls,), body)
     node.put(out, cls)
+    return None
+
+
+def _class_of_handler(hname):
+    for c in Expr._ufl_all_classes_:
+        if c.__dict__.get("_ufl_handler_name_") == hname:
+            return c
+    return None
+
+
+def _dt_rule(tag, style):
+    from ufl.corealg.dag_traverser import DAGTraverser
+
+    if style == "pre":
+
+        def h(self, o, **kw):
+            self.trail.append(tag)
+            return tag
+
+        return h
+
+    def h(self, o, *ops_, **kw):
+        self.trail.append(tag)
+        return tag
+
+    return DAGTraverser.postorder(h)
+
+
+def _defalg_dt(node, out, name, handlers):
+    """A DAGTraverser subclass with its own singledispatch ``process``; rules exist only for
+    types that are registered at this moment (a rule for a type that does not exist yet
+    cannot be written down); ``regrule`` adds rules later."""
+    from functools import singledispatchmethod
+
+    from ufl.corealg.dag_traverser import DAGTraverser
+
+    def default(self, o, **kw):
+        raise AssertionError("Rule not set")
+
+    def __init__(self):
+        DAGTraverser.__init__(self, compress=False)
+        self.trail = []
+
+    cls = type(name, (DAGTraverser,), {"__init__": __init__, "_sim_base": "DT", "process": singledispatchmethod(default), "_sim_handlers": {}})
+    for hname, style in handlers.items():
+        c = _class_of_handler(hname)
+        if c is None:
+            continue
+        cls.process.register(c)(_dt_rule(hname, style))
+        cls._sim_handlers[hname] = style
+    node.put(out, cls)
+    return None
+
+
+def xop_regrule(node, op):
+    """['regrule', None, class_slot, type_slot, style]: register a rule for an existing
+    (typically late) type on an already defined, possibly already used, DAGTraverser class."""
+    _, _, cslot, tslot, style = op
+    cls = node.dec(cslot)
+    t = node.dec(tslot)
+    if getattr(cls, "_sim_base", None) != "DT":
+        raise Skip("not-dt")
+    hname = t._ufl_handler_name_
+    cls.process.register(t)(_dt_rule(hname, style))
+    cls._sim_handlers[hname] = style
     return None
 
 
@@ -240,7 +321,7 @@ def _model_apply(alg, e, mode):
     seen = set()
 
     def rec(n):
-        memo = base == "MF"
+        memo = base in ("MF", "DT")
         if memo and n in seen:
             return None
         if memo:
@@ -248,7 +329,7 @@ def _model_apply(alg, e, mode):
         hn, style = _model_handler(alg, type(n))
         if hn is None:
             raise ValueError("undefined")
-        if mode != "call" or base == "TR":
+        if mode != "call" or base in ("TR", "DT"):
             if style == "post":
                 for c in n.ufl_operands:
                     rec(c)
@@ -259,7 +340,7 @@ def _model_apply(alg, e, mode):
         root = rec(e)
         return root, sorted(trail)
     except ValueError:
-        return "!ValueError", None
+        return ("!AssertionError" if base == "DT" else "!ValueError"), None
 
 
 def xop_apply(node, op):
@@ -272,7 +353,11 @@ def xop_apply(node, op):
     want, want_trail = _model_apply(alg, e, mode)
     start = len(alg.trail)
     try:
-        if base == "MF":
+        if base == "DT":
+            # the per-instance memo of results is not what is judged here
+            alg._visited_cache.clear()
+            got = alg(e)
+        elif base == "MF":
             if mode == "call":
                 _, style = _model_handler(alg, type(e))
                 if style == "pre":
